@@ -17,8 +17,9 @@ def run(ctx):
                 "of another shape) fed to a real Broker; non-trivial = the stream reached the ArgumentUnslicer/AnswerUnslicer")
     ctx.assumptions = ["wire trees carry ASCII text only; set elements / dict keys are distinct and hashable",
                        "the positional-argument count token always equals the number of positional wire trees",
-                       "regexp constraints, RemoteInterface/Copyable constraints, Shared and __ignoreUnknown__/__acceptUnknown__ "
-                       "method schemas are outside the model",
+                       "regexp constraints, Copyable/Failure constraints, Shared, their-reference gifts and "
+                       "__ignoreUnknown__/__acceptUnknown__ method schemas are outside the model; RemoteInterface arguments: the "
+                       "receiver's side only (claimed interface name vs declared), judged against `declared or a sub-interface`",
                        "ChoiceOf alternatives are token-level constraints here (ChoiceOf over containers is C12's finding D7a)",
                        "TLS/negotiation replaced by a loopback Broker pair"]
     ok, log = ctx.coq_build(["props/C02.vo"])
@@ -313,9 +314,49 @@ def run_call(ctx, S, E, tag, family, argspec, pos, kws, vocab=0):
     return rec
 
 
+CLAIMS = [None, "RIVBase", "RIVDerived", "RIVSub", "RIVOther", "RemoteInterface", "RIVNope"]
+
+
+def myref_ws(clid, claim):
+    kids = [["wi", "INT", clid, clid]]
+    if claim is not None:
+        kids.append(["ws", False, len(claim), list(claim.encode())])
+    return ["wo", "my-reference", kids]
+
+
+def remote_sweep(ctx, S, E):
+    """arguments declared with a RemoteInterface (through the public shorthand: the interface itself), every interface of
+    an inheritance chain as declaration, and a my-reference claiming every interface of the chain / an unrelated one /
+    the root / none / an unregistered name -- hand-encoded, and sent by a real schema-less caller: a my-reference is not
+    examined at token level, the final checkAllArgs is the only enforcement"""
+    S.family()
+    recs = []
+    for decl in ["RIVBase", "RIVDerived", "RIVSub", "RIVOther", "RemoteInterface", None]:
+        for i, claim in enumerate(CLAIMS):
+            recs.append(guarded(ctx, run_call, S, E, "remote", "remote", [("a", ["remote", decl], False)], [myref_ws(7 + i, claim)], []))
+        recs.append(guarded(ctx, run_call, S, E, "remote", "remote", [("a", ["list", ["remote", decl], None, 0], False)],
+                            [["wo", "list", [myref_ws(3, "RIVDerived"), myref_ws(4, "RIVBase"), myref_ws(5, "RIVSub")]]], []))
+        for ws in (["wi", "INT", 5, 5], ["ws", False, 1, [65]], ["wo", "list", []], ["wo", "none", []]):
+            recs.append(guarded(ctx, run_call, S, E, "remote", "remote", [("a", ["remote", decl], False)], [ws], []))
+        # the real sender: a schema-less caller passes a live Referenceable that implements `claim`
+        for claim in CLAIMS[:6]:
+            c = S.build(["remote", decl])
+            w = S.World(["a"], [c], None, shared_iface=False)
+            res = w.call((S.referenceable_claiming(claim),), {})
+            calls = w.target.calls
+            if calls and not S.py_args_ok([("a", ["remote", decl], False)], calls[0][1], calls[0][2]):
+                case = dict(declared=decl, claimed=claim, sender="real schema-less callRemote")
+                ctx.fail("oracle/unchecked-argument-reached-user-code", "remote_m(a=%s) ran with a RemoteReference that claims %r: %r"
+                         % (decl, claim, case), replay=case)
+            ctx.case(["remote-real", decl, claim], nontrivial=True)
+            ctx.hist("remote_real", "invoked" if calls else "refused")
+    return [r for r in recs if r]
+
+
 def call_cases(ctx, S, E):
     rng = ctx.rng
     recs = []
+    S.family()
     for p in sorted(glob.glob(os.path.join(common.VERIF, "corpus", "C02", "call-*.json"))):
         w = json.load(open(p))
         r = guarded(ctx, run_call, S, E, "corpus:" + os.path.basename(p), w.get("family", "corpus"), [tuple(x) for x in w["argspec"]], w["pos"], w["kws"])
@@ -327,6 +368,7 @@ def call_cases(ctx, S, E):
     for elem in PEND_ELEMS:
         cs, ws = pend_case(S, rng, elem, "list")
         recs.append(guarded(ctx, run_call, S, E, "pend-sweep", "pend", [("a", cs, False)], [ws], []))
+    recs += remote_sweep(ctx, S, E)
     for i in range(ctx.n(330, 6000)):
         nargs = rng.choice([1, 1, 2, 2, 3])
         argspec = []
@@ -390,16 +432,22 @@ FIXED_ANSWERS = [
 ]
 
 
-def run_answer(ctx, S, E, tag, family, cs, ws, vocab=0):
-    res, w = S.answer_trial(cs, ws, vocab=vocab)
+VIAS = ["interface", "kwarg", "kwarg-over", "method"]
+
+
+def run_answer(ctx, S, E, tag, family, cs, ws, vocab=0, via=None):
+    if via is None:
+        via = ctx.rng.choice(VIAS)
+    ctx.hist("result_constraint_via", via)
+    res, w = S.answer_trial(cs, ws, vocab=vocab, via=via)
     out = S.outcome_of(res)
-    case = dict(tag=tag, family=family, result_constraint=cs, wire=ws)
-    rec = dict(case=case, ctr=S.to_ctr(w.ms.getResponseConstraint()))
+    case = dict(tag=tag, family=family, result_constraint=cs, wire=ws, via=via)
+    rec = dict(case=case, ctr=S.to_ctr(w.declared))
     if out[0] == "ok":
         rec["outcome"] = "callback"
         rec["value"] = S.canon(out[1])
         # THE PROPERTY: the value handed to the callback satisfies the result constraint in force
-        conforms = S.real_accepts(w.ms.getResponseConstraint(), out[1], True) and S.py_satisfies(cs, out[1])
+        conforms = S.real_accepts(w.declared, out[1], True) and S.py_satisfies(cs, out[1])
         if not conforms and has_pend(ws):
             # not D6: the stream is conforming except for ONE back-reference, and ReferenceUnslicer's checkObject is the
             # check that exists for exactly that
@@ -448,10 +496,15 @@ def hostile_sweep(ctx, S, E):
     recs = []
     leaves = [l for l in S.LEAVES if l != ["any"]]
     for leaf in leaves:
+        for i, ws in enumerate(HOSTILE):         # the four public ways of putting a result constraint in force, in turn
+            recs.append(guarded(ctx, run_answer, S, E, "hostile", "hostile", leaf, ws, 1, VIAS[i % 4]))
+        for i, ws in enumerate(HOSTILE[:9]):
+            recs.append(guarded(ctx, run_answer, S, E, "hostile", "hostile", ["list", leaf, None, 0], ["wo", "list", [ws]], 1,
+                                VIAS[(i + 1) % 4]))
+    # the shorthands None / int / str ... given DIRECTLY as _resultConstraint (None means Nothing(): "returns None only")
+    for short in ("none", "int", "str", "bytes", "bool", "float"):
         for ws in HOSTILE:
-            recs.append(guarded(ctx, run_answer, S, E, "hostile", "hostile", leaf, ws, 1))
-        for ws in HOSTILE[:9]:
-            recs.append(guarded(ctx, run_answer, S, E, "hostile", "hostile", ["list", leaf, None, 0], ["wo", "list", [ws]], 1))
+            recs.append(guarded(ctx, run_answer, S, E, "hostile-shorthand", "hostile", ["py", short], ws, 1, "kwarg"))
     return [r for r in recs if r]
 
 
@@ -460,7 +513,8 @@ def answer_cases(ctx, S, E):
     recs = []
     for p in sorted(glob.glob(os.path.join(common.VERIF, "corpus", "C02", "answer-*.json"))):
         w = json.load(open(p))
-        r = guarded(ctx, run_answer, S, E, "corpus:" + os.path.basename(p), w.get("family", "corpus"), w["cs"], w["ws"])
+        r = guarded(ctx, run_answer, S, E, "corpus:" + os.path.basename(p), w.get("family", "corpus"), w["cs"], w["ws"], 0,
+                    w.get("via", "interface"))
         if r and w.get("expect") and r["outcome"] != w["expect"]:
             ctx.fail("oracle/regression-" + os.path.basename(p)[:-5], "corpus witness %s: expected %s, got %s" % (p, w["expect"], r["outcome"]), replay=w)
         recs.append(r)
